@@ -23,6 +23,7 @@ namespace nmtools::verif
         KERNEL_WRITE    = 8,  // (idx, size) for a device thread that writes in assign_result
         SVEC_AT_CAP     = 9,  // (i, Capacity) in utl::static_vector::at / operator[]
         VIEW_INDEX_MUT  = 10, // same as VIEW_INDEX for mutable_indexing_t
+        CLAMP_PLACEHOLDER = 11, // clipped_integer_t clamped a placeholder value (default-constructed array shape, overwritten by resize)
         NUM_SITES       = 16
     };
 
@@ -73,9 +74,19 @@ namespace nmtools::verif
         }
     }
 
+    // > 0 while the library writes a placeholder value that it overwrites before the object is used
+    // (the (1,...,1,len(buffer)) shape of a default-constructed ndarray): a clamp there is counted separately
+    inline thread_local int placeholder_depth = 0;
+    inline void placeholder_begin() { placeholder_depth++; }
+    inline void placeholder_end()   { placeholder_depth--; }
+
     // event that is a violation whenever it happens
     inline void flag(int site, long long a, long long b)
     {
+        if ((site == CLAMP) && (placeholder_depth > 0)) {
+            __atomic_fetch_add(&state.events[CLAMP_PLACEHOLDER],1ull,__ATOMIC_RELAXED);
+            return;
+        }
         __atomic_fetch_add(&state.events[site],1ull,__ATOMIC_RELAXED);
         violation(site,a,b);
     }
